@@ -1,6 +1,372 @@
-//! C15 — not implemented yet.
-use mc_core::Ctx;
+//! C15 — all substate store implementations are observationally equivalent.
+//!
+//! The same commit history is applied to fresh instances of the real stores, and after every commit all
+//! observations the statement names are compared pairwise: every point read, the sorted listing of
+//! every partition from the start and from every cursor, and the set of partitions.
+//!
+//! Two searches (both breadth-first by replay: RocksDB cannot be cloned, so every transition opens fresh
+//! stores in scratch directories and replays its history):
+//!  * "tree-legal": InMemory + RocksDB + RocksDB-with-Merkle-tree, keys of equal length per tier (the
+//!    Merkle store's tree documents equal-length leaf keys as a precondition; outside it its behaviour is
+//!    unspecified, so it only takes part here). 0xFF runs, partition 255 and adjacent node keys exercise
+//!    `delete_range_cf` bounds and the partition-end `take_while`.
+//!  * "wild": InMemory + RocksDB only, with variable-length node keys ([1], [1,0], [0xFF]: length-prefix
+//!    collisions), the empty sort key and prefix-related sort keys.
+use crate::alphabet::*;
+use mc_core::{bfs, BfsStats, Ctx, Level, Machine};
+use radix_substate_store_impls::memory_db::InMemorySubstateDatabase;
+use radix_substate_store_impls::rocks_db::RocksdbSubstateStore;
+use radix_substate_store_impls::rocks_db_with_merkle_tree::RocksDBWithMerkleTreeSubstateStore;
+use radix_substate_store_interface::interface::*;
+use serde_json::json;
+use std::path::PathBuf;
+use std::sync::atomic::{AtomicU64, Ordering};
 
-pub fn run(_ctx: Ctx) -> ! {
-    mc_core::machinery_error("C15: not implemented")
+#[derive(Clone)]
+struct KeySet {
+    name: &'static str,
+    nodes: Vec<NodeKey>,
+    parts: Vec<u8>,
+    sorts: Vec<Sort>,
+    cursors: Vec<Sort>,
+    absent_sort: Sort,
+    with_merkle: bool,
+}
+
+fn legal() -> KeySet {
+    KeySet {
+        name: "tree-legal",
+        nodes: vec![vec![1, 0], vec![1, 1], vec![0xFF, 0xFF]],
+        parts: vec![0, 1, 255],
+        sorts: vec![vec![0, 0], vec![0, 0xFF], vec![0xFF, 0], vec![0xFF, 0xFF]],
+        cursors: vec![vec![], vec![0, 0], vec![0, 1], vec![0, 0xFF], vec![0x80], vec![0xFF, 0], vec![0xFF, 0x80], vec![0xFF, 0xFF], vec![0xFF, 0xFF, 0]],
+        absent_sort: vec![0x7F, 0x7F],
+        with_merkle: true,
+    }
+}
+
+fn wild() -> KeySet {
+    KeySet {
+        name: "wild",
+        nodes: vec![vec![1], vec![1, 0], vec![0xFF]],
+        parts: vec![0, 1, 255],
+        sorts: vec![vec![], vec![0], vec![0xFF], vec![0xFF, 0xFF]],
+        cursors: vec![vec![], vec![0], vec![0, 0], vec![0x80], vec![0xFF], vec![0xFF, 0], vec![0xFF, 0xFF], vec![0xFF, 0xFF, 0]],
+        absent_sort: vec![0x7F],
+        with_merkle: false,
+    }
+}
+
+fn commits(ks: &KeySet, full: bool) -> Vec<Commit> {
+    let v1 = vec![0x01u8];
+    let v2 = vec![0x02u8, 0xFF];
+    let (n0, n1, n2) = (&ks.nodes[0], &ks.nodes[1], &ks.nodes[2]);
+    let s = &ks.sorts;
+    let set = |k: &Sort, v: &Val| PU::Delta(vec![(k.clone(), Some(v.clone()))]);
+    let del = |k: &Sort| PU::Delta(vec![(k.clone(), None)]);
+    let mut out = vec![];
+    if !full {
+        let (pa, pb, pc, pd) = ((n0, 0u8), (n0, 255u8), (n1, 0u8), (n2, 255u8));
+        let one = |p: (&NodeKey, u8), pu: PU| Commit::one(Atom::new(p.0, p.1, pu));
+        out.push(one(pa, set(&s[0], &v1)));
+        out.push(one(pa, set(&s[3], &v1)));
+        out.push(one(pb, set(&s[2], &v1)));
+        out.push(one(pb, set(&s[3], &v2)));
+        out.push(one(pc, set(&s[0], &v2)));
+        out.push(one(pd, set(&s[1], &v1)));
+        out.push(one(pa, del(&s[0])));
+        out.push(one(pb, del(&s[3])));
+        out.push(one(pc, del(&s[0])));
+        out.push(one(pa, PU::Reset(vec![])));
+        out.push(one(pb, PU::Reset(vec![(s[1].clone(), v1.clone())])));
+        out.push(one(pc, PU::Reset(vec![])));
+        out.push(Commit(vec![Atom::new(n0, 0, PU::Delta(vec![(s[2].clone(), Some(v2.clone())), (s[3].clone(), None)])), Atom::new(n0, 255, PU::Reset(vec![]))]));
+        out.push(Commit(vec![Atom::new(n2, 255, PU::Reset(vec![(s[0].clone(), v1.clone()), (s[3].clone(), v2.clone())])), Atom::new(n1, 0, set(&s[3], &v1))]));
+    } else {
+        for (n, p) in [(n0, 0u8), (n0, 1), (n0, 255), (n1, 0), (n2, 255)] {
+            let mut push = |pu: PU| out.push(Commit::one(Atom::new(n, p, pu)));
+            push(set(&s[0], &v1));
+            push(set(&s[2], &v1));
+            push(set(&s[3], &v2));
+            push(del(&s[0]));
+            push(del(&s[3]));
+            push(PU::Reset(vec![]));
+            push(PU::Reset(vec![(s[1].clone(), v1.clone())]));
+        }
+        out.push(Commit(vec![Atom::new(n0, 0, PU::Delta(vec![(s[2].clone(), Some(v2.clone())), (s[3].clone(), None)])), Atom::new(n0, 255, PU::Reset(vec![]))]));
+        out.push(Commit(vec![Atom::new(n2, 255, PU::Reset(vec![(s[0].clone(), v1.clone()), (s[3].clone(), v2.clone())])), Atom::new(n1, 0, set(&s[3], &v1))]));
+    }
+    out
+}
+
+/// Removes its directory when dropped (declared after the store it belongs to, so dropped after it).
+struct DirGuard(PathBuf);
+impl Drop for DirGuard {
+    fn drop(&mut self) {
+        let _ = std::fs::remove_dir_all(&self.0);
+    }
+}
+
+struct St {
+    mem: InMemorySubstateDatabase,
+    rocks: RocksdbSubstateStore,
+    merkle: Option<RocksDBWithMerkleTreeSubstateStore>,
+    model: RefDb,
+    _dirs: Vec<DirGuard>,
+}
+
+struct M15<'a> {
+    ctx: &'a Ctx,
+    ks: KeySet,
+    commits: Vec<Commit>,
+    updates: Vec<DatabaseUpdates>,
+    offset: usize,
+    counter: AtomicU64,
+}
+
+/// Everything the statement names, read from one store.
+#[derive(PartialEq, Eq)]
+struct Obs {
+    reads: Vec<Option<Val>>,
+    lists: Vec<Vec<(Sort, Val)>>,
+    partitions: Vec<PKey>,
+}
+
+fn observe<D: SubstateDatabase + ListableSubstateDatabase>(ks: &KeySet, db: &D) -> Obs {
+    let mut reads = vec![];
+    let mut lists = vec![];
+    for n in ks.nodes.iter().chain(std::iter::once(&vec![0x55u8, 0x55])) {
+        for p in &ks.parts {
+            let pk = (n.clone(), *p);
+            for k in ks.sorts.iter().chain(std::iter::once(&ks.absent_sort)) {
+                reads.push(real_get(db, &pk, k));
+            }
+            lists.push(real_list(db, &pk, None));
+            for c in &ks.cursors {
+                lists.push(real_list(db, &pk, Some(c)));
+            }
+        }
+    }
+    Obs { reads, lists, partitions: real_partition_keys(db) }
+}
+
+fn observe_model(ks: &KeySet, db: &RefDb) -> Obs {
+    let mut reads = vec![];
+    let mut lists = vec![];
+    for n in ks.nodes.iter().chain(std::iter::once(&vec![0x55u8, 0x55])) {
+        for p in &ks.parts {
+            let pk = (n.clone(), *p);
+            for k in ks.sorts.iter().chain(std::iter::once(&ks.absent_sort)) {
+                reads.push(db.get(&pk, k));
+            }
+            lists.push(db.list_from(&pk, None));
+            for c in &ks.cursors {
+                lists.push(db.list_from(&pk, Some(c)));
+            }
+        }
+    }
+    Obs { reads, lists, partitions: db.partition_keys() }
+}
+
+/// Describe the first difference between two observations (same enumeration order as `observe`).
+fn diff(ks: &KeySet, a: &Obs, b: &Obs, an: &str, bn: &str) -> Option<(String, String)> {
+    if a.partitions != b.partitions {
+        let show = |v: &Vec<PKey>| v.iter().map(|(n, p)| format!("{}/{}", mc_core::hex(n), p)).collect::<Vec<_>>().join(",");
+        return Some(("partition-set".into(), format!("list_partition_keys: {an} [{}] vs {bn} [{}]", show(&a.partitions), show(&b.partitions))));
+    }
+    let mut ri = 0;
+    let mut li = 0;
+    for n in ks.nodes.iter().chain(std::iter::once(&vec![0x55u8, 0x55])) {
+        for p in &ks.parts {
+            for k in ks.sorts.iter().chain(std::iter::once(&ks.absent_sort)) {
+                if a.reads[ri] != b.reads[ri] {
+                    return Some(("read".into(), format!("read {}/{} key {}: {an} {} vs {bn} {}", mc_core::hex(n), p, mc_core::hex(k), show_opt(&a.reads[ri]), show_opt(&b.reads[ri]))));
+                }
+                ri += 1;
+            }
+            if a.lists[li] != b.lists[li] {
+                return Some(("list-from-start".into(), format!("listing {}/{} from start: {an} {} vs {bn} {}", mc_core::hex(n), p, show_list(&a.lists[li]), show_list(&b.lists[li]))));
+            }
+            li += 1;
+            for c in &ks.cursors {
+                if a.lists[li] != b.lists[li] {
+                    return Some((
+                        "list-from-cursor".into(),
+                        format!("listing {}/{} from cursor {}: {an} {} vs {bn} {}", mc_core::hex(n), p, mc_core::hex(c), show_list(&a.lists[li]), show_list(&b.lists[li])),
+                    ));
+                }
+                li += 1;
+            }
+        }
+    }
+    None
+}
+
+static MODEL_MISMATCH: AtomicU64 = AtomicU64::new(0);
+static STORE_OPENS: AtomicU64 = AtomicU64::new(0);
+
+impl<'a> Machine for M15<'a> {
+    type Op = OpIx;
+    type St = St;
+
+    fn init(&self) -> St {
+        let n = self.counter.fetch_add(1, Ordering::Relaxed);
+        let d1 = self.ctx.scratch_dir(&format!("{}-{}-rocks", self.ks.name, n));
+        let rocks = RocksdbSubstateStore::standard(d1.clone());
+        let mut dirs = vec![DirGuard(d1)];
+        STORE_OPENS.fetch_add(1, Ordering::Relaxed);
+        let merkle = if self.ks.with_merkle {
+            let d2 = self.ctx.scratch_dir(&format!("{}-{}-merkle", self.ks.name, n));
+            let m = RocksDBWithMerkleTreeSubstateStore::standard(d2.clone());
+            dirs.push(DirGuard(d2));
+            STORE_OPENS.fetch_add(1, Ordering::Relaxed);
+            Some(m)
+        } else {
+            None
+        };
+        St { mem: InMemorySubstateDatabase::standard(), rocks, merkle, model: RefDb::default(), _dirs: dirs }
+    }
+
+    fn ops(&self, _st: &St, _depth: usize) -> Vec<OpIx> {
+        (0..self.commits.len()).map(|i| OpIx((i + self.offset) as u16)).collect()
+    }
+
+    fn step(&self, st: &mut St, op: &OpIx) -> Result<String, (String, String)> {
+        let i = op.0 as usize - self.offset;
+        let du = &self.updates[i];
+        let before = st.model.clone();
+        st.model.apply(&self.commits[i]);
+        st.mem.commit(du);
+        st.rocks.commit(du);
+        if let Some(m) = st.merkle.as_mut() {
+            m.commit(du);
+        }
+        let om = observe(&self.ks, &st.mem);
+        let or = observe(&self.ks, &st.rocks);
+        if let Some((k, w)) = diff(&self.ks, &om, &or, "in-memory", "rocksdb") {
+            return Err((format!("memory-vs-rocksdb:{k}"), w));
+        }
+        if let Some(m) = st.merkle.as_ref() {
+            let ot = observe(&self.ks, m);
+            if let Some((k, w)) = diff(&self.ks, &om, &ot, "in-memory", "rocksdb-with-merkle-tree") {
+                return Err((format!("memory-vs-merkle:{k}"), w));
+            }
+            if let Some((k, w)) = diff(&self.ks, &or, &ot, "rocksdb", "rocksdb-with-merkle-tree") {
+                return Err((format!("rocksdb-vs-merkle:{k}"), w));
+            }
+        }
+        if om != observe_model(&self.ks, &st.model) {
+            MODEL_MISMATCH.fetch_add(1, Ordering::Relaxed);
+        }
+        // outcome class: what the commit did to the set of partitions / substates
+        let pb = before.partition_keys();
+        let pa = st.model.partition_keys();
+        let kind = if self.commits[i].0.len() > 1 {
+            "multi"
+        } else {
+            match &self.commits[i].0[0].pu {
+                PU::Delta(v) if v[0].1.is_some() => "set",
+                PU::Delta(_) => "delete",
+                PU::Reset(_) => "reset",
+            }
+        };
+        let effect = if before == st.model {
+            "noop"
+        } else if pa.len() > pb.len() {
+            "partition-appears"
+        } else if pa.len() < pb.len() {
+            "partition-disappears"
+        } else if pa != pb {
+            "partitions-swap"
+        } else {
+            "substates-change"
+        };
+        Ok(format!("{kind}:{effect}"))
+    }
+
+    fn fingerprint(&self, st: &St) -> Vec<u8> {
+        // In-memory store contents (all stores just agreed on every observation incl. full listings).
+        mc_core::fp128(&real_contents(&st.mem).canonical_bytes())
+    }
+}
+
+pub fn run(ctx: Ctx) -> ! {
+    if let Some(case) = ctx.read_replay_case() {
+        replay(ctx, case);
+    }
+    // (key set, full alphabet?, depth)
+    let plan: Vec<(KeySet, bool, usize)> =
+        if ctx.quick() { vec![(legal(), false, 3), (wild(), false, 3)] } else { vec![(legal(), false, 4), (wild(), false, 4), (legal(), true, 3), (wild(), true, 3)] };
+    let mut table = vec![];
+    let mut offsets = vec![];
+    for (ks, full, _) in &plan {
+        offsets.push(table.len());
+        table.extend(commits(ks, *full));
+    }
+    install_table(table);
+    let mut total = BfsStats::default();
+    let mut exhaustive = true;
+    let mut searches = serde_json::Map::new();
+    for (pi, (ks, full, depth)) in plan.iter().enumerate() {
+        let cs = commits(ks, *full);
+        let updates = cs.iter().map(|c| c.to_database_updates()).collect();
+        let m = M15 { ctx: &ctx, ks: ks.clone(), commits: cs, updates, offset: offsets[pi], counter: AtomicU64::new((pi as u64) << 40) };
+        let s = bfs(&ctx, &m, ks.name, *depth, 5_000_000, ctx.pick(40.0, 500.0));
+        if s.capped {
+            exhaustive = false;
+        }
+        searches.insert(
+            format!("{}:{}:depth{}", ks.name, if *full { "systematic-alphabet" } else { "core-alphabet" }, depth),
+            json!({"alphabet": m.commits.len(), "stores": if ks.with_merkle { 3 } else { 2 }, "states": s.states, "transitions": s.transitions, "depth_completed": s.depth_completed, "capped": s.capped, "per_depth_new_states": s.per_depth_states}),
+        );
+        total.add(&s);
+    }
+    let mm = MODEL_MISMATCH.load(Ordering::Relaxed);
+    if mm > 0 {
+        ctx.info("all-stores-agree-but-differ-from-plain-map-model", mm);
+    }
+    let mut cov = total.coverage();
+    cov.insert("searches".into(), serde_json::Value::Object(searches));
+    cov.insert("rocksdb_instances_opened".into(), json!(STORE_OPENS.load(Ordering::Relaxed)));
+    let nontrivial = total.states;
+    ctx.finish(
+        Level::ModelChecking,
+        "a state is a distinct store content (read back from the in-memory store after all stores agreed); a transition opens fresh stores, replays the history plus one commit and compares all reads, all listings (start + every cursor) of 12 partitions and the partition set pairwise; non-trivial = distinct store contents reached",
+        nontrivial,
+        exhaustive,
+        cov,
+        &[
+            "the Merkle-tree store only takes part with equal-length keys per tier (documented precondition of its tree); variable-length and prefix-related keys are compared between the in-memory and the plain RocksDB store",
+            "dedup by content: the stores are treated as functions of their logical content once they agree on every observation including full listings (RocksDB tombstone layout is RocksDB's responsibility)",
+            "sizes: node keys <= 2 bytes, sort keys <= 2 bytes, values <= 2 bytes",
+        ],
+    )
+}
+
+fn replay(ctx: Ctx, case: serde_json::Value) -> ! {
+    let hist = history_from_case(&case);
+    let tag = case.get("base").and_then(|b| b.as_str()).unwrap_or("tree-legal").to_string();
+    let ks = if tag == "wild" { wild() } else { legal() };
+    install_table(hist.clone());
+    let updates = hist.iter().map(|c| c.to_database_updates()).collect();
+    {
+        let m = M15 { ctx: &ctx, ks, commits: hist.clone(), updates, offset: 0, counter: AtomicU64::new(0) };
+        let mut st = m.init();
+        for i in 0..hist.len() {
+            match mc_core::catch(|| m.step(&mut st, &OpIx(i as u16))) {
+                Ok(Ok(c)) => println!("step {i} {:?}: ok ({c})", hist[i]),
+                Ok(Err((k, w))) => {
+                    println!("step {i} {:?}: VIOLATION {k}: {w}", hist[i]);
+                    ctx.violation(k, w, case.clone());
+                    break;
+                }
+                Err(p) => {
+                    println!("step {i} {:?}: PANIC {p}", hist[i]);
+                    ctx.violation(format!("panic@{}", mc_core::last_panic_location()), p, case.clone());
+                    break;
+                }
+            }
+        }
+    }
+    ctx.finish(Level::ModelChecking, "replay", 0, false, serde_json::Map::new(), &[])
 }
